@@ -67,13 +67,33 @@ func NewDisk(s *Sim) *Disk {
 	return &Disk{kv: NewKV(), base: NewKV(), sim: s}
 }
 
-// PlainDisk hides the transactional interface.
-type PlainDisk struct{ *Disk }
+// PlainDisk hides the transactional interface (no embedding: promoted
+// methods would bring BeginTx back).
+type PlainDisk struct{ D *Disk }
+
+func (p PlainDisk) Put(ctx context.Context, e *physical.Entry) error { return p.D.Put(ctx, e) }
+func (p PlainDisk) Get(ctx context.Context, k string) (*physical.Entry, error) {
+	return p.D.Get(ctx, k)
+}
+func (p PlainDisk) Delete(ctx context.Context, k string) error { return p.D.Delete(ctx, k) }
+func (p PlainDisk) List(ctx context.Context, pr string) ([]string, error) {
+	return p.D.List(ctx, pr)
+}
+func (p PlainDisk) ListPage(ctx context.Context, pr, after string, limit int) ([]string, error) {
+	return p.D.ListPage(ctx, pr, after, limit)
+}
 
 var (
 	_ physical.TransactionalBackend = (*Disk)(nil)
 	_ physical.Backend              = PlainDisk{}
 )
+
+func init() {
+	var b physical.Backend = PlainDisk{}
+	if _, ok := b.(physical.TransactionalBackend); ok {
+		panic("PlainDisk must not be transactional")
+	}
+}
 
 func reqID(ctx context.Context) string {
 	if v := ctx.Value(logical.CtxKeyInFlightRequestID{}); v != nil {
